@@ -1019,6 +1019,24 @@ def trigger_scenarios(quick=False):
     t("half-sidechains-stripped", dict({"item": "1AJJ.pdb", "window": [0, 20]},
                                        damage=[[i, "keep_backbone"] for i in range(0, 20, 2)],
                                        argv=["--ff=PARSE"]))
+    # more structure-level damage (each verified loud on the repaired tree)
+    B14 = {"item": "1AJJ.pdb", "window": [0, 14], "waters": 6}
+    t("chain-of-ca-atoms-only", dict(B14, damage=[[i, "ca_only"] for i in range(14)], argv=amber))
+    t("chain-of-ca-atoms-only:nodebump-noopt",
+      dict(B14, damage=[[i, "ca_only"] for i in range(14)],
+           argv=["--ff=AMBER", "--nodebump", "--noopt"]))
+    t("sidechains-stripped-60pct:nodebump-noopt",
+      dict(B14, damage=[[i, "keep_backbone"] for i in range(14) if i % 5],
+           argv=["--ff=PARSE", "--nodebump", "--noopt"]))
+    t("waters-only", dict({"item": "1AJJ.pdb", "window": [0, 1], "waters": 10},
+                          damage=[[0, "drop_backbone"], [0, "keep_backbone"]], argv=amber))
+    t("waters-only:assign-only", dict({"item": "1AJJ.pdb", "window": [0, 1], "waters": 10},
+                                      damage=[[0, "drop_backbone"], [0, "keep_backbone"]],
+                                      argv=["--ff=PARSE", "--assign-only"]))
+    t("nan-coordinates-one-residue", dict(B14, damage=[[5, "coord:nan"]], argv=amber))
+    t("nan-coordinates-one-residue:nodebump-noopt",
+      dict(B14, damage=[[5, "coord:nan"]], argv=["--ff=PARSE", "--nodebump", "--noopt"]))
+    t("inf-coordinates-one-residue", dict(B14, damage=[[9, "coord:inf"]], argv=["--ff=CHARMM"]))
     return T
 
 
